@@ -178,12 +178,15 @@ func getMinIntType(
 		minimum, maximum, exclusiveMinimum, exclusiveMaximum,
 	)
 
+	// NormalizeBounds may hand back the caller's own pointers: adjust copies, not the schema.
 	if nExclusiveMin && nMin != nil {
-		*nMin += 1.0
+		adjusted := *nMin + 1.0
+		nMin = &adjusted
 	}
 
 	if nExclusiveMax && nMax != nil {
-		*nMax -= 1.0
+		adjusted := *nMax - 1.0
+		nMax = &adjusted
 	}
 
 	if nMin != nil && *nMin >= 0 {
